@@ -1551,14 +1551,17 @@ class StoreProxy:
         try:
             v = getattr(self._real, k)
         except AttributeError:
-            self._rec(self._who, 'get', k, _MISSING)
+            if k == 'dict':
+                self._rec(self._who, 'get', k, _MISSING)
             raise
-        self._rec(self._who, 'get', k, v)
+        if k == 'dict':
+            self._rec(self._who, 'get', k, v)
         return v
 
     def __setattr__(self, k, v):
         setattr(self._real, k, v)
-        self._rec(self._who, 'set', k, v)
+        if k == 'dict':
+            self._rec(self._who, 'set', k, v)
 
     def __delattr__(self, k):
         try:
@@ -1582,18 +1585,71 @@ class Recorder:
             self.events.append((tix, who, kind, k, v))
 
     def install(self):
+        """record at the level of BEHAVIOUR: the generated properties of Request / Response (get, set, delete) and the
+        reset of all of them by __init__, whatever the store behind them is made of; for HeaderDict the accesses to
+        the `dict` attribute of its store"""
+        from ombott import Request, Response
+        self.who = {}
         for j, a in enumerate(self.apps):
-            rq, rs = a.request, a.response
-            rq._ts_props = StoreProxy(rq._ts_props, self.rec, (0, j))
-            rs._ts_props = StoreProxy(rs._ts_props, self.rec, (1, j))
-            rs.headers._ts = StoreProxy(rs.headers._ts, self.rec, ('h', j))
+            self.who[id(a.request)] = (0, j)
+            self.who[id(a.response)] = (1, j)
+            hd = a.response.headers
+            hd._ts = StoreProxy(hd._ts, self.rec, ('h', j))
+        self.saved = []
+        rec, who = self.rec, self.who
+        for c, cls in ((0, Request), (1, Response)):
+            for name in ATTRS[c]:
+                orig = cls.__dict__[name]
+                self.saved.append((cls, name, orig))
+
+                def fget(s, _o=orig, _n=name):
+                    w = who.get(id(s))
+                    try:
+                        v = _o.fget(s)
+                    except AttributeError:
+                        if w:
+                            rec(w, 'get', _n, _MISSING)
+                        raise
+                    if w:
+                        rec(w, 'get', _n, v)
+                    return v
+
+                def fset(s, v, _o=orig, _n=name):
+                    _o.fset(s, v)
+                    w = who.get(id(s))
+                    if w:
+                        rec(w, 'set', _n, v)
+
+                def fdel(s, _o=orig, _n=name):
+                    w = who.get(id(s))
+                    try:
+                        _o.fdel(s)
+                    except AttributeError:
+                        if w:
+                            rec(w, 'del', _n, _MISSING)
+                        raise
+                    if w:
+                        rec(w, 'del', _n, None)
+                setattr(cls, name, property(fget, fset, fdel, orig.__doc__))
+            init = cls.__init__
+            self.saved.append((cls, '__init__', init))
+
+            def wrapped_init(s, *a, _init=init, _c=c, **kw):
+                w = who.get(id(s))
+                if w:
+                    for n in ATTRS[_c]:            # the wrapped __init__ first resets every property for this thread
+                        rec(w, 'set', n, None)
+                return _init(s, *a, **kw)
+            cls.__init__ = wrapped_init
 
     def uninstall(self):
+        for cls, name, orig in reversed(getattr(self, 'saved', [])):
+            setattr(cls, name, orig)
         for a in self.apps:
-            for holder, slot in ((a.request, '_ts_props'), (a.response, '_ts_props'), (a.response.headers, '_ts')):
-                p = getattr(holder, slot)
-                if isinstance(p, StoreProxy):
-                    setattr(holder, slot, object.__getattribute__(p, '_real'))
+            hd = a.response.headers
+            p = hd._ts
+            if isinstance(p, StoreProxy):
+                hd._ts = object.__getattribute__(p, '_real')
 
     def tok(self, v):
         if v is None:
